@@ -134,6 +134,12 @@ func TestVerifC34Stress(t *testing.T) {
 										q.Release()
 										return
 									}
+									// the last two peers have no direct path to each other: everything between them rides on the relay, so relay
+									// lookups and forwarding run while tunnels to the relay are re-made and torn down
+									if (n == nodes[3] && dst == nodes[4]) || (n == nodes[4] && dst == nodes[3]) {
+										q.Release()
+										return
+									}
 									select {
 									case dst.udp().RxPackets <- q:
 									default:
@@ -202,44 +208,44 @@ func TestVerifC34Stress(t *testing.T) {
 					}
 				}
 				// operators: the read-side control API (what the ssh debug commands and embedding applications call) on every node
-			for i, n := range nodes {
-				wg.Add(1)
-				go func(i int, n *vnNode) {
-					defer wg.Done()
-					rng := verifkit.SubRand("C34operator", seedBase+i)
-					for {
-						select {
-						case <-ctx.Done():
-							return
-						default:
-						}
-						time.Sleep(time.Duration(20+rng.IntN(200)) * time.Millisecond)
-						o := nodes[rng.IntN(len(nodes))]
-						switch rng.IntN(8) {
-						case 0:
-							n.C.ListHostmapHosts(rng.IntN(2) == 0)
-						case 1:
-							n.C.ListHostmapIndexes(rng.IntN(2) == 0)
-						case 2:
-							n.C.GetCertByVpnIp(o.Ident.Addr())
-						case 3:
-							n.C.PrintTunnel(o.Ident.Addr())
-						case 4:
-							n.C.QueryLighthouse(o.Ident.Addr())
-						case 5:
-							n.C.GetHostInfoByVpnAddr(o.Ident.Addr(), rng.IntN(2) == 0)
-						case 6:
-							if o != n {
-								n.C.CreateTunnel(o.Ident.Addr())
+				for i, n := range nodes {
+					wg.Add(1)
+					go func(i int, n *vnNode) {
+						defer wg.Done()
+						rng := verifkit.SubRand("C34operator", seedBase+i)
+						for {
+							select {
+							case <-ctx.Done():
+								return
+							default:
 							}
-						default:
-							n.C.State()
+							time.Sleep(time.Duration(20+rng.IntN(200)) * time.Millisecond)
+							o := nodes[rng.IntN(len(nodes))]
+							switch rng.IntN(8) {
+							case 0:
+								n.C.ListHostmapHosts(rng.IntN(2) == 0)
+							case 1:
+								n.C.ListHostmapIndexes(rng.IntN(2) == 0)
+							case 2:
+								n.C.GetCertByVpnIp(o.Ident.Addr())
+							case 3:
+								n.C.PrintTunnel(o.Ident.Addr())
+							case 4:
+								n.C.QueryLighthouse(o.Ident.Addr())
+							case 5:
+								n.C.GetHostInfoByVpnAddr(o.Ident.Addr(), rng.IntN(2) == 0)
+							case 6:
+								if o != n {
+									n.C.CreateTunnel(o.Ident.Addr())
+								}
+							default:
+								n.C.State()
+							}
+							queries.Add(1)
 						}
-						queries.Add(1)
-					}
-				}(i, n)
-			}
-			// churn, roaming, reloads: one goroutine per node so reloads of one node never overlap
+					}(i, n)
+				}
+				// churn, roaming, reloads: one goroutine per node so reloads of one node never overlap
 				for i, n := range nodes {
 					wg.Add(1)
 					go func(i int, n *vnNode) {
@@ -364,7 +370,7 @@ func TestVerifC34Stress(t *testing.T) {
 				r.Count("config_reloads", int(reloads.Load()))
 				r.Count("tunnel_churn_events", int(churns.Load()))
 				r.Count("roam_events", int(roams.Load()))
-			r.Count("control_api_queries", int(queries.Load()))
+				r.Count("control_api_queries", int(queries.Load()))
 				r.Count("virtual_seconds", secs)
 				r.DistinctClass(fmt.Sprintf("run %d completed", run))
 				r.Distinct(fmt.Sprintf("run %d delivered=%d", run, delivered.Load()))
